@@ -30,7 +30,7 @@ pub struct Spec {
     pub want_c: bool,
 }
 
-pub const ASSUME_DOMAIN: &str = "inputs are drawn from the robust domains of DESIGN.md §3 (exact families: rectilinear bitmaps, octagonal lattice, their exact affine images, and `flat-oct` = octagonal-lattice operand against an axis-parallel operand with x scaled by 2^kx, kx <= 30, i.e. long flat shapes whose edges cross at angles down to 1e-9; inexact families: perturbed shared triangulation, float stars in general position with margin 1e-6*magnitude, self-crossing rings in general position); the inexact-and-degenerate region where the recorded findings K1-K4/N2 live is excluded by construction";
+pub const ASSUME_DOMAIN: &str = "inputs are drawn from the robust domains of DESIGN.md §3 (exact families: rectilinear bitmaps, octagonal lattice, their exact affine images, and `flat-oct` = octagonal-lattice operand against an axis-parallel operand with x scaled by 2^kx, kx <= 30, i.e. long flat shapes whose edges cross at angles down to 1e-9, and `fan` = triangles between consecutive lattice rays around one apex, shared between the operands, i.e. up to 26 edges meeting in one vertex; inexact families: perturbed shared triangulation, float stars in general position with margin 1e-6*magnitude, self-crossing rings in general position); the inexact-and-degenerate region where the recorded findings K1-K4/N2 live is excluded by construction";
 pub const ASSUME_ORACLE: &str = "oracle trusted base: robust::orient2d (exact orientation), the boundary tracer (cross-checked against the bitmap/triangle model on every generated operand), the witness construction (approximate placement, exact classification)";
 pub const ASSUME_TOL: &str = "tolerance model: 0 on exact families (bitwise comparisons), 1e-9*max|coordinate| for f64 and 1e-4*max|coordinate| for f32 on inexact families; witnesses closer than the tolerance to an input edge are skipped and counted";
 
@@ -55,6 +55,7 @@ pub fn pair_families(tier: Tier, total_quick: u64, total_thorough: u64, selfx: b
         fam("pert", unit * 2, want_c, move || strat::case(strat::pert_shape(ow, ow), false)),
         fam("gen", unit * 3, want_c, || strat::case(strat::gen_shape(), false)),
         fam("flat-oct", unit, want_c, move || strat::flat_case(ow, ow, 30)),
+        fam("fan", unit, want_c, || strat::case(strat::fan_shape(), false)),
     ];
     if selfx {
         v.push(fam("selfx", unit, false, || strat::case(strat::selfx_shape(), false)));
@@ -177,7 +178,7 @@ pub fn spec(id: &str, tier: Tier) -> Option<Spec> {
         },
         "C07" => Spec {
             id: "C07",
-            rule: "robust-domain operand pairs; each operand is rewritten (every ring started at a random vertex, reversed independently, 0-2 vertices repeated consecutively, closing vertex possibly repeated, holes and parts rotated/reversed in order) and all 4 operations are run on both forms: exact families must give identical ring and polygon multisets, inexact families the same region (and the rewritten result must satisfy the membership oracle); when an operand is a single polygon all applicable trait implementations must return the identical MultiPolygon. Non-trivial: the rewriting changed the byte representation and the base case is C01-non-trivial.",
+            rule: "robust-domain operand pairs; each operand is rewritten (every ring started at a random vertex, reversed independently, 0-2 vertices repeated consecutively, closing vertex possibly repeated, holes and parts rotated/reversed in order, zeros written as -0.0 in a quarter of the cases) and all 4 operations are run on both forms: exact families must give identical ring and polygon multisets, inexact families the same region (and the rewritten result must satisfy the membership oracle); when an operand is a single polygon all applicable trait implementations must return the identical MultiPolygon. Non-trivial: the rewriting changed the byte representation and the base case is C01-non-trivial.",
             design_ref: "§5 C07",
             families: pair_families(tier, 64_000, 3_200_000, false, false),
             spaces: vec![],
@@ -197,9 +198,9 @@ pub fn spec(id: &str, tier: Tier) -> Option<Spec> {
         },
         "C09" => Spec {
             id: "C09",
-            rule: "robust-domain operand pairs, per case: (1) a rectangle 4096 magnitudes away to the left/right/above/below added to A or to B: ring multiset of the result = ring multiset of the base result plus the part exactly when it contributes (union, xor, subject part under difference); (2) far-right parts added to both operands so that intersection/difference cannot stop early; (3) the same near geometry through the bounding-box shortcut (B moved away) and through the sweep (a tall far part on A re-overlaps the boxes). Ring multisets compared bitwise; where the shortcut hands back rings of operands whose rings touch each other, regions are compared instead. Non-trivial: base case C01-non-trivial and the extra part changes the sweep's right bound, lies to the left, or flips the box test.",
+            rule: "robust-domain operand pairs, per case: (1) a rectangle 4096 magnitudes away to the left/right/above/below added to A or to B: ring multiset of the result = ring multiset of the base result plus the part exactly when it contributes (union, xor, subject part under difference); (2) far parts added on the same side of both operands (always to the right, so that intersection/difference cannot stop early, and in one more direction), which moves every bound derived from the operands' boxes; (3) the same near geometry through the bounding-box shortcut (B moved away) and through the sweep (a tall far part on A re-overlaps the boxes). Ring multisets compared bitwise; where the shortcut hands back rings of operands whose rings touch each other, regions are compared instead. Non-trivial: base case C01-non-trivial and the extra part changes the sweep's right bound, lies to the left, or flips the box test.",
             design_ref: "§5 C09",
-            families: pair_families(tier, 64_000, 3_200_000, false, false),
+            families: pair_families(tier, 128_000, 3_200_000, false, false),
             spaces: vec![],
             check: Box::new(|c, o| laws::c09(c, o, Prec::F64)),
             assumptions,
@@ -235,14 +236,14 @@ pub fn spec(id: &str, tier: Tier) -> Option<Spec> {
         },
         "C12" => Spec {
             id: "C12",
-            rule: "call histories over a pool of operands (A, B, C of a generated case, the empty operand, a separately allocated copy of A, A's first part): 20-60 calls (operation, two pool indices, placement in {this thread, fresh thread}) derived from the case's auxiliary bits; after every call all operands are compared bit for bit with a snapshot and the result with the memoised first result for equal operands; for a fifth of the histories 8 threads then run all calls concurrently in different orders and every result is compared with the reference. Non-trivial: some call took the sweep path and returned at least one ring. Thread schedules are sampled, not controlled.",
+            rule: "call histories over a pool of operands (A, B, C of a generated case, the empty operand, a separately allocated copy of A, A's first part): 20-60 calls (operation, two pool indices, placement in {this thread, fresh thread, this thread after the same call in f32}) derived from the case's auxiliary bits; after every call all operands are compared bit for bit with a snapshot and the result with the memoised first result for equal operands; for a fifth of the histories 8 threads then run all calls concurrently in different orders and every result is compared with the reference; the first 48 sweep-path cases of the process are recomputed at the very end of the run and must be bit-identical to what they returned at the start. Non-trivial: some call took the sweep path and returned at least one ring. Thread schedules are sampled, not controlled.",
             design_ref: "§5 C12",
             families: {
                 let q = |a: u64, b: u64| tier.pick(a, b);
                 vec![
-                    fam("rect", q(800, 20_000), true, || strat::case(strat::rect_shape(4, 4, false), false)),
-                    fam("oct", q(800, 20_000), true, || strat::case(strat::oct_shape(3, 3), false)),
-                    fam("gen", q(400, 10_000), true, || strat::case(strat::gen_shape(), false)),
+                    fam("rect", q(1600, 30_000), true, || strat::case(strat::rect_shape(4, 4, false), false)),
+                    fam("oct", q(1600, 30_000), true, || strat::case(strat::oct_shape(3, 3), false)),
+                    fam("gen", q(800, 15_000), true, || strat::case(strat::gen_shape(), false)),
                 ]
             },
             spaces: vec![],
